@@ -76,7 +76,7 @@ def targeted_discs(rng):
     for n in (4025, 4026, 4027, 8122, 12218):
         out.append(("exact-fill", G.Disc([G.Partition([G.Volume("V", [G.SampleFile("S", W(rng, n))])], sectors=16)])))
     # long files: 4 and 5 sectors (chains with several undecoded sectors in a row before a link down)
-    out.append(("long", G.Disc([G.Partition([G.Volume("V", [G.SampleFile("L4", W(rng, 14000)), G.SampleFile("L5", W(rng, 18500))], dir_sectors=3)], sectors=24)])))
+    out.append(("long", G.Disc([G.Partition([G.Volume("V", [G.SampleFile("L4", W(rng, 14000)), G.SampleFile("L5", W(rng, 18500)), G.SampleFile("L7", W(rng, 26000))], dir_sectors=3)], sectors=36)])))
     # empty sample, empty window, interior window
     out.append(("empty", G.Disc([G.Partition([G.Volume("V", [G.SampleFile("E", []), G.SampleFile("W", W(rng, 100), 40, 40), G.SampleFile("I", W(rng, 5000), 1000, 4096)])], sectors=16)])))
     # three partitions, empty volumes, rate 0
@@ -105,13 +105,13 @@ def run(ctx, rep: Report, deep: bool = False):
     rng = ctx.rng
     rep.rule = (
         "logical discs -> independent writer (gen_akai) -> real `export`/`ls` and the Lean model of the parser: 1-3 partitions x 0-3 volumes x 0-7 files, chain shape in "
-        "{contiguous, reversed, random permutation, sorted, head-not-lowest}, sample lengths incl. 0, 1, k*8192-140 bytes (exact fill, k=1..3) and +-1 word, start/end markers full/interior/empty, "
+        "{contiguous, reversed, random permutation, sorted, head-not-lowest, rotated, upper-half-first, ends-fixed (first sector lowest and last highest of a span of n, inner ones in another order or outside the span)}, sample lengths incl. 0, 1, k*8192-140 bytes (exact fill, k=1..3) and +-1 word, start/end markers full/interior/empty, "
         "rates incl. 0, S1000/S3000 type bytes, directory as chain or reserved-flag run, a directory of more than 341 entries (two sectors), L/R pairs; oracle: file set and PCM computed from the logical model; distinct = distinct image; non-trivial = image with >= 1 sample"
     )
     cases = []
     for tag, disc in targeted_discs(rng):
         # every chain shape for the targeted ones
-        for shape in (("contiguous",), ("reversed",), ("head-not-lowest",), ("random",), ("rotl",), ("hi-lo",)) if (deep or not ctx.quick) else (("rotl",), ("hi-lo",), ("reversed",)):
+        for shape in (("contiguous",), ("reversed",), ("head-not-lowest",), ("random",), ("rotl",), ("hi-lo",), ("ends-fixed",)) if (deep or not ctx.quick) else (("rotl",), ("hi-lo",), ("reversed",), ("ends-fixed",)):
             img_rng = rng
             old = G.serialize.__defaults__
             try:
